@@ -35,6 +35,19 @@ CLAIMS = {
                 'are uninterpreted; base_fee over-approximated; A-HASH/A-CODEC/A-FRESH.',
         'technique': 'bounded symbolic execution of rustc MIR with state joining + z3/cvc5 obligations against a reference map model',
     },
+    'C03': {
+        'text': 'The kernels apply_tx_batch_impl is composed of are executed symbolically (MIR) on a symbolic batch in every '
+                'order from the same arbitrary state: create_next_state ends in extensionally equal coin trees, fee pool, '
+                'tips, stakes and transaction set; load_relevant_coins / load_stake_info give the same accept/reject and '
+                'the same maps; the DOSC-speed reducers are associative, commutative and idempotent; the closures rayon '
+                'runs only read their captures. Adjacent transpositions generate all permutations.',
+        'design_ref': 'DESIGN.md §8 C03',
+        'note': COMMON_NOTE + ' Quick: 2 transactions x (1 in, 1 out); thorough: also (2,1)+(1,2) and 3 transactions. rayon '
+                'combinators have the sequential semantics of the same combinator: real thread schedules and hash-seed '
+                'iteration orders are outside this technique (stated in DESIGN §5.3). Transactions of a batch pairwise '
+                'different; base_fee an arbitrary function of the transaction.',
+        'technique': 'bounded symbolic execution of rustc MIR in every order + z3/cvc5 commutation obligations (parallel portfolio)',
+    },
     'C04': {
         'text': 'Symbolic execution of the MIR of check_tx_validity and validate_tx_scripts for a transaction with two inputs '
                 'and two covenants: accepted => for EACH input some carried script hashes to that coin\'s covenant hash, '
